@@ -2,6 +2,7 @@
 
 mod backlog;
 mod life;
+mod mixed;
 mod rules;
 mod sock;
 mod tcpx;
@@ -443,6 +444,14 @@ fn main() {
             rep.rule = "same state graph as C06 with cap / MSS / window invariants evaluated on every state and every emitted packet".into();
             let (wall, cap) = tier.pick((Duration::from_secs(20), 3_000_000), (Duration::from_secs(600), 40_000_000));
             run_tcp_configs(&mut rep, c16_configs(tier), wall, cap);
+            {
+                // several connections on one host: loopback and cross-host in one egress pass
+                let mut d = vx_core::DfsConfig::new("mixed-paths-one-host", 0);
+                d.wall = wall;
+                let st = vx_core::explore_dfs(&d, mixed::scenario);
+                rep.violations.extend(st.violations);
+                rep.add_part(st.part);
+            }
             rep.finish();
         }
         "C13" => {
@@ -555,6 +564,25 @@ fn replay(path: &str) {
             all.extend(c16_configs(Tier::Quick));
         }
         _ => {}
+    }
+    if prop == "C16" && scenario.starts_with("c16-mixed") {
+        println!("replaying {prop}: {scenario}");
+        let mut ch = vx_core::Chooser::from_choices(&choices);
+        let e = mixed::scenario(&mut ch);
+        for l in ch.describe() {
+            println!("  choice {l}");
+        }
+        match e.violation {
+            Some(v) => {
+                for a in &v.actions {
+                    println!("  {a}");
+                }
+                println!("VIOLATION clause={} : {}", v.clause, v.detail);
+                std::process::exit(1);
+            }
+            None => println!("no violation on this execution"),
+        }
+        return;
     }
     if prop == "C13" && name.starts_with("backlog") {
         let num = |k: &str| -> usize { scenario.split_whitespace().find_map(|t| t.strip_prefix(k).and_then(|x| x.parse().ok())).unwrap_or(1) };
